@@ -40,6 +40,11 @@ func runC05(c *Ctx) {
 	r.Rule("R7", "no event is dispatched on a detached goroutine: every call of Conn.dispatch anywhere in package client is a plain or deferred call, never a go statement (a user handler running beside the event loop would see the tracker change under it)")
 	r.Rule("R8", "the tracker applies a line completely before its method returns: no go statement anywhere in package state (work left to a background goroutine is state a user handler can observe half-applied)")
 	r.Rule("R9", "the tracker user code holds is the tracker the state handlers update: Conn's tracker field is stored only by construction and by functions outside the connection life cycle (Enable/DisableStateTracking), never by anything reachable from the connect routine, the teardown, a connection goroutine or a handler")
+	r.Rule("R10", "each state handler applies its own line: for every state-changing verb the handler registered in the state table calls the prescribed tracker method with the line's own parameters under listed guards only, and the 353 handler associates every name it is given (shared with C13.R1) - an update put aside for a later line (a NAMES listing buffered until 366, say) is not there when this line's user handlers run")
+	if n := c.effectsRule("R10", nil); true {
+		r.Floor("R10", "tracker effect call sites checked", n, 13)
+	}
+	c.namesRuleAs("R10", a.StTable["353"])
 	c.loopExclusionRule("R6")
 	{
 		nGo, nFn := 0, 0
@@ -207,6 +212,58 @@ func runC05(c *Ctx) {
 		}
 		if depth > 6 {
 			return false, "call chain too deep"
+		}
+		if fn.Parent() != nil {
+			// a closure: it must only ever be called (or deferred) by its parent, never handed to something that
+			// runs it later (time.AfterFunc, a stored callback)
+			esc := ""
+			funcInstrs(fn.Parent(), func(in ssa.Instruction) {
+				mc, isMC := in.(*ssa.MakeClosure)
+				if !isMC || mc.Fn != ssa.Value(fn) {
+					return
+				}
+				var uses func(v ssa.Value, depth int)
+				uses = func(v ssa.Value, depth int) {
+					if depth > 4 {
+						esc = "is used in a way that is not followed"
+						return
+					}
+					for _, ref := range *v.Referrers() {
+						switch t := ref.(type) {
+						case *ssa.DebugRef:
+						case *ssa.Call:
+							if t.Call.Value != v {
+								esc = "is passed to " + calleeName(&t.Call) + " at " + c.InstrPos(t) + ", which runs it later"
+							}
+						case *ssa.Defer:
+							if t.Call.Value != v {
+								esc = "is passed to a deferred " + calleeName(&t.Call)
+							}
+						case *ssa.Go:
+							esc = "is started with go at " + c.InstrPos(t)
+						case *ssa.Phi:
+							uses(t, depth+1)
+						case *ssa.Store:
+							// a local variable holding the closure: follow its loads
+							if al, isAl := t.Addr.(*ssa.Alloc); isAl && t.Val == v {
+								for _, r2 := range *al.Referrers() {
+									if ld, isLd := r2.(*ssa.UnOp); isLd && ld.Op == token.MUL {
+										uses(ld, depth+1)
+									}
+								}
+							} else {
+								esc = "is stored at " + c.InstrPos(t)
+							}
+						default:
+							esc = "escapes at " + c.InstrPos(ref)
+						}
+					}
+				}
+				uses(mc, 0)
+			})
+			if esc != "" {
+				return false, "closure " + c.FuncKey(fn) + " " + esc
+			}
 		}
 		sites := c.Callers(fn)
 		if len(sites) == 0 {
